@@ -359,7 +359,19 @@ def run(M, rep, tier, only=None):
             # per-axis element expressions
             newext = rs[0].args[0].t
             slc = w.kw.get("slc").t if w.kw.get("slc") is not None else None
-            if newext[0] != "comp" or slc is None or slc[0] != "comp":
+            def per_axis(t):
+                # the per-axis element expression: of a comprehension, or of a sequence built in a loop (one unrolled iteration)
+                while t and t[0] == "call" and t[1] in ("tuple", "list") and len(t[2]) == 1:
+                    t = t[2][0]
+                if t and t[0] == "comp":
+                    return t[2]
+                if t and t[0] in ("tuple", "list") and len(t[1]) == 1:
+                    return t[1][0]
+                return None
+            ne_t, sl_t = per_axis(newext), per_axis(slc) if slc is not None else None
+            if ne_t is None or sl_t is None:
+                if any(a[0] == "iter" and v is False for a, v in p.decisions) and newext[0] in ("tuple", "list") and not newext[1]:
+                    continue        # the loop form with no axis at all (rank 0): nothing to compute per axis
                 bad = (p, "cannot see the per-axis computation of the new extent / region")
                 continue
             axdec = [(a, v) for a, v in p.decisions if a[0] == "eq" and a[2] == ("param", "axis") and a[1][0] == "idx"]
@@ -379,8 +391,8 @@ def run(M, rep, tier, only=None):
                 return NOTHING
             te = TermEval(leaf)
             try:
-                ne = te.ev(newext[2])
-                sl = te.ev(slc[2])
+                ne = te.ev(ne_t)
+                sl = te.ev(sl_t)
             except (Unknown, TypeError) as e:
                 raise AnalysisError("C01.R3: cannot evaluate the per-axis expressions of append (%s)" % e)
             want_ne = S + D if onaxis else S
